@@ -1,0 +1,20 @@
+//go:build verif
+
+package handshake
+
+import (
+	"net"
+	"time"
+)
+
+// verification export (build tag verif): the handshake message reader on an arbitrary net.Conn.
+func VerifReadMessage(conn net.Conn, timeout time.Duration, chunk []byte) (any, []byte, error) {
+	h := &handshake{}
+	return h.readMessage(conn, timeout, chunk)
+}
+
+// VerifWriteMessage frames and writes one handshake message the way Start/Accept/Join do.
+func VerifWriteMessage(conn net.Conn, message any) error {
+	h := &handshake{}
+	return h.writeMessage(conn, message)
+}
